@@ -155,6 +155,16 @@ class TableKeyParameter(Parameter):
     def encode_placeholder_into_pdu(self, physical_value: Optional[ParameterValue],
                                     encode_state: EncodeState) -> None:
 
+        if self.table_row is not None:
+            # the table row is statically specified -> the key is
+            # not part of the PDU (cf. _decode_positioned_from_pdu())
+            if physical_value is not None and physical_value != self.table_row.short_name:
+                odxraise(
+                    f"The table row of table key '{self.short_name}' is statically specified "
+                    f"as '{self.table_row.short_name}', not {physical_value!r}", EncodeError)
+            encode_state.table_keys[self.short_name] = self.table_row.short_name
+            return
+
         if physical_value is not None:
             key_dop = self.table.key_dop
             if key_dop is None:
@@ -202,6 +212,10 @@ class TableKeyParameter(Parameter):
 
     def encode_value_into_pdu(self, encode_state: EncodeState) -> None:
 
+        if self.table_row is not None:
+            # statically specified table row: nothing to encode
+            return
+
         key_dop = self.table.key_dop
         if key_dop is None:
             odxraise(
@@ -237,6 +251,7 @@ class TableKeyParameter(Parameter):
             # the table row to be used is statically specified -> no
             # need to decode anything!
             phys_val = self.table_row.short_name
+            decode_state.table_keys[self.short_name] = self.table_row
         else:
             # Use DOP to decode
             key_dop = odxrequire(self.table.key_dop)
